@@ -147,15 +147,22 @@ func init() {
 	register(&Plan{
 		Prop:  "C09",
 		Level: "exploration",
+		Race:  true,
 		Rule: "one case = one probe call (WriteThru with explicit timestamp and frame; format x 15 severities incl. registered fg-only / fg+bg / no colour and unregistered; groups, errors, multi-line messages, caller on/off, long values) formatted once by a fresh context (pool flushed with two GC cycles) and then again after each of 6 generated histories of 1-20 other records " +
-			"(other formats, levels with background colours or none, sizes, other loggers, other goroutines, interleaved GC); GOMAXPROCS=1 so the pooled context is deterministically reused, which a marshaller spy confirms per execution. Oracle: byte equality. non-trivial = probe compared after all histories; distinct = by probe bytes",
+			"(other formats, levels with background colours or none, sizes, other loggers, other goroutines, interleaved GC); GOMAXPROCS=1 so the pooled context is deterministically reused, which a marshaller spy confirms per execution. Oracle: byte equality. non-trivial = probe compared after all histories; distinct = by probe bytes. chdir: the reference is ANOTHER process - two processes started alike go chdir(A), chdir(B), probe (caller information on, frame in the library or the harness, privacy flag on/off); one of them logged in A (a caller record, one on a goroutine, several, one without caller info); payloads equal. parallel: 3-33 goroutines, each with a logger, destination and WriteThru call of its own, replay their call 150-1500 times at once (also under the race detector); every replay equals the payload obtained while the process was quiet",
 		Assumptions: []string{"two runtime.GC() cycles empty sync.Pool (victim cache), giving a fresh formatting context for the reference"},
-		Floors:      map[string]int64{"probe_executions": 500, "reuse_of_pooled_context_confirmed": 100, "reuse_after_a_different_class_of_record": 50},
+		Floors:      map[string]int64{"probe_executions": 500, "reuse_of_pooled_context_confirmed": 100, "reuse_after_a_different_class_of_record": 50, "probe_pairs_compared": 30, "parallel_replays": 20000},
 		Jobs: func(tier string, seed int64) []Job {
 			n := pick(tier, 3200, 100000)
 			js := chunk("hist", "prod", n, pick(tier, 200, 3200), Job{Procs: 1, Timeout: 40 * time.Minute})
 			// under go test a record with an error value ends in a multi-line dump: more per-record state to carry over
-			return append(js, chunk("hist", "test", pick(tier, 1200, 30000), pick(tier, 200, 1900), Job{Procs: 1, Timeout: 40 * time.Minute})...)
+			js = append(js, chunk("hist", "test", pick(tier, 1200, 30000), pick(tier, 200, 1900), Job{Procs: 1, Timeout: 40 * time.Minute})...)
+			// per-process state: the reference is another process (both change their working directory)
+			js = append(js, chunk("chdir", "prod", pick(tier, 64, 1024), pick(tier, 16, 64), Job{Timeout: 40 * time.Minute})...)
+			// real parallelism on unrelated loggers, with and without the race detector
+			js = append(js, chunk("parallel", "prod", pick(tier, 24, 600), pick(tier, 6, 40), Job{Timeout: 40 * time.Minute})...)
+			js = append(js, chunk("parallel", "prod", pick(tier, 12, 240), pick(tier, 6, 40), Job{Race: true, Args: []string{"-x", "race=1"}, Timeout: 40 * time.Minute})...)
+			return js
 		},
 	})
 	register(&Plan{
